@@ -229,7 +229,7 @@ impl private::StoreCallbacks<DataKey> for AnnotationDataSet {
     /// This does *NOT* take into consideration any annotations point to or make use of this key!
     /// Use [`AnnotationStore::remove_key()`] instead.
     fn preremove(&mut self, handle: DataKeyHandle) -> Result<(), StamError> {
-        self.key_data_map.data.remove(handle.as_usize());
+        self.key_data_map.remove_all(handle); //(emptied, not taken out of the vector: that would shift the entries of all later keys)
         self.mark_changed();
         Ok(())
     }
